@@ -14,8 +14,10 @@ import asyncio
 
 from stepup.core.enums import FileState, Need, StepState
 
-from . import e2
-from .common import coq_list
+from .common import coq_bool, coq_list, coq_str
+from .e2 import Gen as _E2Gen
+from .e2 import Impl as _E2Impl
+from .e2 import classify as _classify
 
 
 class _NullReporter:
@@ -23,13 +25,23 @@ class _NullReporter:
         return None
 
 
-class Drive(e2.Gen):
+class Drive(_E2Gen):
     """e2.Gen plus a drain phase, finalize, and a no-change restart."""
 
     def __init__(self, rng, impl, length):
         super().__init__(rng, impl, length)
         self.dispatches = []     # (index of the pre-state in self.trace, label)
         self.marks = {}
+
+    async def record(self, op):
+        """Only transactions of the base alphabet of model/Graph.v are issued: this check's traces stay
+        free of static trees (on tree-free states the tree-aware model of C09 coincides with Graph.v).
+        Whatever else the shared generator proposes (register_tree, ...) is dropped before it reaches
+        the implementation."""
+        if op[0] not in BASE_OPS:
+            self.opcount["dropped:" + op[0]] = self.opcount.get("dropped:" + op[0], 0) + 1
+            return "dropped"
+        return await super().record(op)
 
     async def g_dispatch(self):
         n0 = len(self.trace)
@@ -44,7 +56,7 @@ class Drive(e2.Gen):
             await revert_optional_steps(self.impl.wf, _NullReporter())
             outcome, detail = "ok", ""
         except Exception as e:  # noqa: BLE001
-            outcome, detail = e2.classify(e), f"{type(e).__name__}: {e}"
+            outcome, detail = _classify(e), f"{type(e).__name__}: {e}"
         d = await self.snapshot()
         self.trace.append((("revert_optional",), outcome, detail, d))
         return outcome
@@ -153,10 +165,93 @@ class Drive(e2.Gen):
 # ---------------------------------------------------------------------------------------------
 
 
+# The printers below are private copies on purpose: harness/e2.py is owned by C09 and its printers
+# follow the tree-aware alphabet (OpBase / OpRegisterTree of model/GraphTree.v); this check speaks
+# the plain alphabet of model/Graph.v wrapped in the xop type of model/Noop.v.
+KIND = {"root": "KRoot", "file": "KFile", "step": "KStep", "st": "KTree"}
+NEEDC = {"OPTIONAL": "NOptional", "DEFAULT": "NDefault", "PLAN": "NPlan"}
+CAUSEC = {"EXTERNAL": "CExternal", "SUCCEEDED": "CSucceeded", "FAILED": "CFailed", "CONFIRMED": "CConfirmed"}
+OUTC = {"ok": "OOk", "usage": "OUsage", "internal": "OInternal", "hang": "OInternal"}
+BASE_OPS = ("declare_static", "update_hashes", "define_step", "amend_step", "dispatch", "reset_for_rerun",
+            "exec_end", "reset_to_pending", "validate_pending", "mark_step_pending", "delete_detached",
+            "hold", "release", "reset_interrupted", "revert_optional", "dispatch_error")
+
+
+def cq_key(k):
+    return f"({KIND[k[0]]}, {coq_str(k[1])})"
+
+
+def cq_strs(xs):
+    return coq_list([coq_str(x) for x in xs])
+
+
+def cq_hs(hs):
+    return coq_list([f"({coq_str(p)}, {'None' if h is None else f'Some {h}'})" for p, h in hs])
+
+
+def cq_base_op(op):
+    n = op[0]
+    if n == "declare_static":
+        return f"OpDeclareStatic {cq_key(op[1])} {cq_strs(sorted(set(op[2])))}"
+    if n == "update_hashes":
+        return f"OpUpdateHashes {CAUSEC[op[1]]} {cq_hs(sorted(op[2]))}"
+    if n == "define_step":
+        _, c, l, i, e, o, v, nd = op
+        return f"OpDefineStep {cq_key(c)} {coq_str(l)} {cq_strs(i)} {cq_strs(e)} {cq_strs(o)} {cq_strs(v)} {NEEDC[nd]}"
+    if n == "amend_step":
+        _, l, i, e, o, v = op
+        return f"OpAmendStep {coq_str(l)} {cq_strs(i)} {cq_strs(e)} {cq_strs(o)} {cq_strs(v)}"
+    if n == "dispatch":
+        return f"OpDispatch {coq_str(op[1])}"
+    if n == "reset_for_rerun":
+        return f"OpResetForRerun {coq_str(op[1])}"
+    if n == "exec_end":
+        _, l, pre, cause, hs, ok, wd = op
+        return (f"OpExecEnd {coq_str(l)} {cq_hs(sorted(pre))} {CAUSEC[cause]} {cq_hs(sorted(hs))} "
+                f"{coq_bool(ok)} {coq_bool(wd)}")
+    if n == "reset_to_pending":
+        return f"OpResetToPending {coq_str(op[1])}"
+    if n == "validate_pending":
+        return f"OpValidatePending {coq_str(op[1])}"
+    if n == "mark_step_pending":
+        return f"OpMarkStepPending {coq_str(op[1])}"
+    if n == "delete_detached":
+        return "OpDeleteDetached"
+    if n == "hold":
+        return f"OpHold {coq_str(op[1])}"
+    if n == "release":
+        return f"OpRelease {coq_str(op[1])}"
+    if n == "reset_interrupted":
+        return "OpResetInterrupted"
+    raise AssertionError(f"operation outside the alphabet of model/Graph.v: {n}")
+
+
+def cq_dump(d):
+    def okey(k):
+        return "None" if k is None else f"(Some {cq_key(k)})"
+
+    def hid(h):
+        if h is None:
+            return "None"
+        if h == "U":
+            return "(Some 0)"
+        if h == "?":
+            return "(Some 999999)"
+        return f"(Some {h})"
+    nodes = coq_list([f"({cq_key(k)}, {okey(c)}, {coq_bool(det)})" for k, c, det in d["nodes"]])
+    files = coq_list([f"({coq_str(l)}, {s}, {hid(h)})" for l, s, h in d["files"]])
+    steps = coq_list([f"({coq_str(l)}, {s}, {nd}, {coq_bool(df)}, {dc}, {ho}, {coq_bool(hh)})"
+                      for l, s, nd, df, dc, ho, hh in d["steps"]])
+    deps = coq_list([f"({cq_key(a)}, {cq_key(b)}, {coq_bool(dy)})" for a, b, dy in d["deps"]])
+    shash = cq_strs(d["shash"])
+    envs = coq_list([f"({coq_str(s)}, {coq_str(n)}, {coq_bool(dy)})" for s, n, dy in d["envs"]])
+    return f"(mkDump {nodes} {files} {steps} {deps} {shash} {envs})"
+
+
 def cq_xop(op):
     if op[0] == "revert_optional":
         return "XRevert"
-    return f"XOp ({e2.cq_op(op)})"
+    return f"XOp ({cq_base_op(op)})"
 
 
 def cq_xtrace_items(trace):
@@ -164,7 +259,7 @@ def cq_xtrace_items(trace):
     for op, outcome, detail, d in trace:
         if op[0] == "dispatch_error":
             continue
-        items.append(f"({cq_xop(op)}, {e2.OUTC[outcome]}, {e2.cq_dump(d)})")
+        items.append(f"({cq_xop(op)}, {OUTC[outcome]}, {cq_dump(d)})")
     return items
 
 
@@ -177,7 +272,7 @@ HEADER = ("From Coq Require Import List NArith Bool.\nImport ListNotations.\n"
 
 
 async def gen_case(rng, length, defer_cap=3):
-    impl = e2.Impl(defer_cap)
+    impl = _E2Impl(defer_cap)
     await impl.start()
     try:
         g = Drive(rng, impl, length)
